@@ -14,7 +14,7 @@ THEOREMS = ['Fsic.C03.' + n for n in [
     'classify_rejects', 'rejection_class', 'accepted_iff', 'rejects_symbolError', 'rejects_parserError',
     'identical_duplicates_accepted', 'combine_error_class', 'symbol_order', 'names_partition', 'lags_leads_spec',
     'explicit_replace', 'min_only_raise', 'default_range_feasible', 'default_range_enumerated',
-    'default_range_is_solve_range']]
+    'default_range_is_solve_range', 'default_range_is_accepted_periods']]
 RULE = ('grammar programs (gen_scripts.gen_program, multi-equation, named periods mixed with integer offsets, LHS '
         'offsets) plus AST mutations {duplicate equation, second different equation for one name, name used with two '
         'kinds, variable first read with a lead and later assigned / read with a lag}, rendered under plain and '
@@ -30,10 +30,10 @@ ASSUMPTIONS = ['no name is used both as a function call and as a variable/parame
                'term indexes are as parse_terms produces them (int or str for indexed kinds, None for functions/keywords)']
 
 META = {
-    "text": "Theorems over ALL term-level scripts (lists of statements = lists of (name, Type, index) terms as returned by parse_equation_terms, no lexing): accepted => endogenous iff some LHS variable term, parameter iff brace term, error iff angle term, exogenous otherwise; kind conflicts and double definitions are rejected with SymbolError / ParserError, identical duplicates accepted once; NAMES = endo++exo++params++errors without duplicates, every class in first-appearance order (Python dict insertion semantics modelled as an association list); LAGS = max(0 :: -offsets), LEADS = max(0 :: offsets), explicit lags=/leads= replace, min_ only raise; the default range [LAGS, n-1-LEADS] is exactly the set of periods at which every offset stays inside the span and periodRange enumerates it in order. The enum order VARIABLE < EXOGENOUS < ENDOGENOUS is re-proved from the reflected Type table on every run. The Lean model is tied to Symbol.combine / parse_equation / parse_model / build_model_definition by exact comparison on the real intermediate values.",
+    "text": "Theorems over ALL term-level scripts (a statement = the (name, Type, index) terms returned by parse_equation_terms plus the opaque equation/code strings; no lexing), all option sets and span lengths: an accepted script's named symbols are the term names, each once, in first-appearance order (Python-dict insertion semantics as an association list), every symbol summarising all occurrences of its name (type = max over the reflected enum, lags/leads = min/max with the implicit 0, one equation); hence endogenous iff some LHS-variable term, parameter iff brace term, error iff angle term, exogenous otherwise; NAMES = endo++exo++params++errors without duplicates, each class a subsequence of the first-appearance list; LAGS = max(0 :: -offsets), LEADS = max(0 :: offsets) (string indexes contribute 0), explicit lags=/leads= replace, min_ only raise; [LAGS, n-1-LEADS] is exactly the set of positions at which every offset stays inside the span, and M1's solve() iterates periodRange over it in increasing order. Acceptance is characterised exactly: accepted iff no kind conflict and no double definition; a kind conflict alone gives SymbolError, a double definition alone ParserError, no other exception class is reachable; repeating an identical equation statement leaves the symbol list unchanged. VARIABLE < EXOGENOUS < ENDOGENOUS is re-proved from the reflected Type table on every run. The model is tied to Symbol.combine / parse_equation_terms / parse_equation / parse_model / build_model_definition by exact comparison on the real intermediate values, and the property is restated over the generator's AST against the real classes and iter_periods().",
     "design_ref": "DESIGN.md §5 M3, §6 C03",
-    "note": "Trusted: Lean kernel; axioms propext/Classical.choice/Quot.sound; the correspondence harness, which validates the hand-written model on generated cases only; the term lists come from the real regex scanner (text level is C13/C14). Theorems assume no name is both a called function and a variable (outside the C01 grammar; witness theorem shows the overwrite) and parse_terms-shaped indexes.",
-    "technique": "Lean 4 proof (per-key decomposition of the dict folds, summary invariant over occurrences, omega for the range) + differential correspondence check + AST-level oracle"
+    "note": "Trusted: Lean kernel; axioms propext/Classical.choice/Quot.sound; the correspondence harness, which validates the hand-written model on generated cases only; terms are taken from the real regex scanner (the text level is C13/C14). Theorems carry two guards on what the scanner hands over: indexes shaped as parse_terms makes them (None exactly for functions/keywords), and no name used both as a called function and as a variable (outside the C01 grammar; classify_spec_false_at_witness proves the statement fails there: 'Y = log + log(X)' is accepted and the variable log is in no class list).",
+    "technique": "Lean 4 proof (per-key decomposition of the two dict folds, a membership-based summary invariant composed over both levels, failing-step analysis for the error classes, omega for the range) + differential correspondence check + AST-level oracle"
 }
 
 OPT_VALUES = [None, 0, 1, 3]
